@@ -26,6 +26,9 @@ ASSUMPTIONS = [
     "line input: D+/D- switch in the same 48 MHz sample (no differential skew, no SE1), 4 samples per bit, drift "
     "modelled as one 3- or 5-sample bit at most every 100 bits (0.25 %), first slip anywhere; idle is J; >= 2 bit "
     "times of idle between packets; while the PHY drives, its own output is looped back to the line inputs",
+    "packets that are not correctly encoded (sub 'rx', field 'mangle') keep SYNC, NRZI, bit timing and the SE0-SE0-J "
+    "EOP and differ only in the bit stream: omitted stuffed bits, a cut after >= 1 bit, <= 3 dribble bits (USB 2.0 "
+    "7.1.9.1 allows dribble behind hubs); they are followed by >= 2 bit times of idle like every packet",
     "nobody drives the line while the PHY transmits, and the PHY is not asked to transmit while a packet is arriving",
     "a single pull-down pin is expected to follow dp_pulldown/dm_pulldown when both requests agree (nothing is "
     "asserted when they differ)",
@@ -91,6 +94,20 @@ def slips_for(nsym, spec):
     return out
 
 
+def rx_line_bits(ev):
+    """Line bits between SYNC and EOP of a receive event (mangled packets: see line.mangled_bits)."""
+    mg = ev.get("mangle")
+    if not mg:
+        return line.stuff(line.bytes_to_bits(ev["data"]), ev.get("violate"))[0]
+    return line.mangled_bits(ev["data"], ev.get("violate"), mg.get("omit", ()), mg.get("trunc"), mg.get("dribble", ()))
+
+
+def rx_symbols(ev):
+    if not ev.get("mangle"):
+        return line.encode_packet(ev["data"], ev.get("violate"))
+    return line.encode_bits(rx_line_bits(ev))
+
+
 class Driver:
     """Host + UTMI-side user logic.  step(t, prev): prev = outputs sampled at the 48 MHz edge ending cycle t-1."""
 
@@ -131,7 +148,7 @@ class Driver:
                 ev = self.events[self.k]
                 self.ev = ev
                 if ev["kind"] == "rx":
-                    sym = line.encode_packet(ev["data"], ev.get("violate"))
+                    sym = rx_symbols(ev)
                     samples = line.to_samples(sym, slips_for(len(sym), ev["slip"]))
                     self.queue = [J] * ev["gap"] + samples
                     self.log.append(dict(kind="rx", ev=ev, t0=t + ev["gap"], t1=t + len(self.queue)))
@@ -364,6 +381,59 @@ def check(case_events, drv, trace, has_pd, cfgname):
     err_ticks = [t for t in ticks if trace[t].rx_error]
     if stray is not None:
         return fail(f"{cfgname}: rx_valid without rx_active at usb edge in cycle {stray}", signature="rx-valid-outside-active")
+    mangled = any(rec["ev"].get("mangle") for rec in rx)
+    if mangled:
+        # Histories containing a packet that is not correctly encoded (runt, dribble bits, omitted stuffing): the
+        # statement promises receive-active framing only for correctly encoded packets (and an error report, judged
+        # inside rx_active, for seven 1s in a row), so the intervals are attributed to the packets by time instead of
+        # by count: an interval belongs to the line packet whose SYNC (32 samples) ended last before it began; the
+        # window closes 16 cycles after the next transmit request (the PHY's own packet must not be received).
+        txs = [r["t0"] for r in drv.log if r["kind"] == "tx"]
+        wins = []
+        for i, rec in enumerate(rx):
+            lo = rec["t0"] + 32
+            hi = rx[i + 1]["t0"] + 32 if i + 1 < len(rx) else n
+            later = [t + 16 for t in txs if t >= rec["t1"]]
+            if later:
+                hi = min(hi, min(later))
+            wins.append((lo, hi))
+        owned = [[iv for iv in intervals if lo <= iv["t0"] < hi] for lo, hi in wins]
+        lost = [iv for iv in intervals if not any(lo <= iv["t0"] < hi for lo, hi in wins)]
+        if lost:
+            return fail(f"{cfgname}: rx_active interval {lost[0]['t0']}..{lost[0]['t1']} does not follow the SYNC of any "
+                        f"line packet (line packets start at cycles {[r['t0'] for r in rx]}; transmit requests at "
+                        f"{txs})", signature="rx-active-without-line-packet")
+        keep_rx, keep_iv = [], []
+        for rec, ivs in zip(rx, owned):
+            ev = rec["ev"]
+            if ev.get("mangle"):
+                bits = rx_line_bits(ev)
+                labels.add("rx-mangled")
+                if line.residue_bits(bits):
+                    labels.add("rx-mangled-odd-bit-count")
+                if line.has_seven_ones(bits):
+                    what = (f"{cfgname}: rx packet {bytes(ev['data']).hex()} mangled {ev['mangle']} (line cycles "
+                            f"{rec['t0']}..{rec['t1']}): line bits {''.join(map(str, bits))} contain seven 1s in a row")
+                    if not ivs:
+                        return fail(f"{what} but no rx_active interval followed its SYNC",
+                                    signature="stuff-violation-not-reported")
+                    lo, hi = ivs[0]["t0"], ivs[-1]["t1"]
+                    if not any(iv["t0"] <= t <= iv["t1"] for iv in ivs for t in err_ticks):
+                        pulses = [t for t in range(lo, min(n, hi + 1)) if trace[t].rx_error]
+                        sig = "stuff-error-pulse-missed-by-usb-clock" if pulses else "stuff-violation-not-reported"
+                        return fail(f"{what} but rx_error was never high at a usb clock edge while rx_active "
+                                    f"({[(iv['t0'], iv['t1']) for iv in ivs]}; 48 MHz cycles with rx_error high: "
+                                    f"{pulses[:4]})", signature=sig)
+                    labels.add("rx-mangled-violation")
+                continue                      # nothing else is promised for a packet that is not correctly encoded
+            if len(ivs) != 1:
+                return fail(f"{cfgname}: rx packet {bytes(ev['data']).hex()} (line cycles {rec['t0']}..{rec['t1']}) "
+                            f"got {len(ivs)} rx_active intervals {[(iv['t0'], iv['t1']) for iv in ivs]} (all intervals: "
+                            f"{[(iv['t0'], iv['t1']) for iv in intervals]})", signature="rx-active-interval-count")
+            keep_rx.append(rec)
+            keep_iv.append(ivs[0])
+        all_rx = rx
+        rx, intervals = keep_rx, keep_iv
     # a packet transmitted by the PHY itself must not be received
     if len(intervals) != len(rx):
         return fail(f"{cfgname}: {len(rx)} packets were put on the line (first samples at cycles "
@@ -372,6 +442,14 @@ def check(case_events, drv, trace, has_pd, cfgname):
     for i, (rec, iv) in enumerate(zip(rx, intervals)):
         ev = rec["ev"]
         nxt = rx[i + 1]["t0"] if i + 1 < len(rx) else n
+        if mangled:
+            j = all_rx.index(rec)
+            nxt = all_rx[j + 1]["t0"] if j + 1 < len(all_rx) else n
+            if j and all_rx[j - 1]["ev"].get("mangle"):
+                labels.add("rx-after-mangled")
+                if line.residue_bits(rx_line_bits(all_rx[j - 1]["ev"])):
+                    labels.add("rx-after-odd-bit-count")
+                    nontrivial = True
         what = (f"{cfgname}: rx packet {bytes(ev['data']).hex()} (line cycles {rec['t0']}..{rec['t1']}, slip "
                 f"{ev['slip'][0]:+d} first@{ev['slip'][1]})")
         if iv["t0"] < rec["t0"] or iv["t1"] >= nxt + 64:
@@ -482,7 +560,15 @@ class RxSub(_Base):
             "as 3-/5-sample bits every >= 100 bits, optional stuffing violation = a stuffed 0 sent as 1) optionally "
             "interleaved with a transmit packet; oracle at usb clock edges: one rx_active interval per packet in order, "
             "rx_valid only inside it, delivered bytes equal the packet, rx_error seen inside the interval for a "
-            "violation (rx_error on good packets is only counted, not asserted); non-trivial = a good packet with a stuffed bit or an effective drift slip")
+            "violation (rx_error on good packets is only counted, not asserted); one event in six is a packet that is NOT "
+            "correctly encoded (1..24 bytes with all / one of the stuffed bits omitted, cut after any bit, 1..3 dribble "
+            "bits ahead of the EOP, optionally a stuffed bit sent as 1, in any combination; most leave the receiver with a "
+            "bit count that is not a whole number of bytes): nothing is judged about its bytes or framing, rx_error "
+            "inside an rx_active interval is required iff its line bits contain seven 1s in a row, rx_active intervals "
+            "are then attributed to packets by time (after the packet's SYNC, before the next packet's), and every "
+            "correctly encoded packet before AND after it is judged in full (exactly one interval, exactly its bytes); "
+            "non-trivial = a good packet with a stuffed bit or an effective drift slip, or a good packet that follows a "
+            "packet with an odd bit count")
 
     def strategy(self):
         slip = st.tuples(weighted([(0, 2), (1, 2), (-1, 2)]), st.one_of(st.integers(8, 40), st.integers(0, 99)),
@@ -491,9 +577,20 @@ class RxSub(_Base):
                                         sel=weighted([(0, 6), (1, 1)]), vidx=st.integers(0, 7)))
         tx = st.fixed_dictionaries(dict(kind=st.just("tx"), data=pkt_bytes(8, 2), op_mode=st.just(0),
                                         gap=st.integers(2, 9), junk=JUNK))
+        # a packet that is NOT correctly encoded (what a marginal transmitter, a hub chain or line noise produces):
+        # stuffed bits omitted (all of them = the sender does not stuff, or one), a runt cut after any bit, 1..3
+        # dribble bits ahead of the EOP, optionally with a stuffed bit sent as 1 -- in any combination
+        bad = st.fixed_dictionaries(dict(
+            kind=st.just("rx"), data=pkt_bytes(24, 5), gap=st.integers(8, 60), slip=slip,
+            sel=weighted([(0, 6), (1, 1)]), vidx=st.integers(0, 7),
+            mangle=st.fixed_dictionaries(dict(
+                osel=weighted([(0, 3), (1, 2), (2, 2)]), oidx=st.integers(0, 7),
+                tsel=weighted([(0, 3), (1, 1)]), tpos=st.integers(0, 10 ** 6),
+                dribble=weighted([(0, 3), (1, 3), (2, 1), (3, 1)]).flatmap(
+                    lambda k: st.lists(st.integers(0, 1), min_size=k, max_size=k))))))
         return st.fixed_dictionaries(dict(
             cfg=st.integers(0, len(CONFIGS) - 1), idle=JUNK,
-            events=st.lists(st.one_of(rx, rx, rx, rx, tx), min_size=1, max_size=4),
+            events=st.lists(st.one_of(rx, rx, rx, rx, tx, bad), min_size=1, max_size=4),
         )).map(_resolve_violation)
 
 
@@ -504,6 +601,19 @@ def _resolve_violation(case):
             if ev.pop("sel", 0) and ns:
                 ev["violate"] = ev["vidx"] % ns
             ev.pop("vidx", None)
+            mg = ev.get("mangle")
+            if mg is not None and "osel" in mg:
+                osel, oidx, tsel, tpos = mg.pop("osel"), mg.pop("oidx"), mg.pop("tsel"), mg.pop("tpos")
+                omit = list(range(ns)) if osel == 1 else [oidx % ns] if osel == 2 and ns else []
+                if ev.get("violate") in omit:
+                    omit.remove(ev["violate"])
+                out = dict(omit=omit, trunc=None, dribble=mg["dribble"])
+                if tsel:
+                    nb = len(line.mangled_bits(ev["data"], ev.get("violate"), omit))
+                    out["trunc"] = 1 + tpos % max(1, nb - 1)            # 1 .. nb-1 bits kept (1 for a one-bit stream)
+                if not omit and out["trunc"] is None and not out["dribble"]:
+                    out["dribble"] = [1]                                 # always mangled in at least one way
+                ev["mangle"] = out
     return case
 
 
